@@ -459,3 +459,38 @@ def heap_c15(tier, seed, params):
 
 def heap_c08(tier, seed, params):
     return ["op=%s n=%d kind=%s fault=none" % (op, n, kind) for kind in HEAP_KINDS for n in HEAP_NS for op in ("boxed_generate", "default_boxed")]
+
+
+SERDE_NS = [0, 1, 2, 3, 4, 5, 6, 7, 8, 16, 17, 33, 64, 97]
+
+
+def serde(tier, seed, params):
+    rng = random.Random(seed)
+    out = []
+    for n in SERDE_NS:
+        out.append("op=ser n=%d" % n)
+        cnts = sorted(set([0, max(n - 1, 0), n, n + 1, n + 2]))
+        for cnt in cnts:
+            for op in ("de_json", "de_value", "de_bincode"):
+                out.append("op=%s n=%d cnt=%d" % (op, n, cnt))
+            bads = sorted(set([0, 1, cnt // 2, cnt - 1])) if cnt > 0 else []
+            for b in bads:
+                if 0 <= b < cnt:
+                    out.append("op=de_json n=%d cnt=%d bad=%d" % (n, cnt, b))
+                    out.append("op=de_value n=%d cnt=%d bad=%d" % (n, cnt, b))
+        # scripted sources: every combination of up-front hint, delivered count, terminator and closing hint
+        small = n <= 8
+        ks = range(0, n + 3) if small else sorted(set([0, 1, n // 2, n - 1, n, n + 1, n + 2]))
+        for k in ks:
+            for term in ("n", "x", "xe", "ne", ""):
+                steps = "e" * k + term
+                for h0 in sorted(set(["none", "0", str(n), str(max(n - 1, 0)), str(n + 1), str(k)])):
+                    hes = ["none", "0", "1", str(max(k - n, 0))] if small or tier == "thorough" else ["none", str(max(k - n, 0))]
+                    for he in sorted(set(hes)):
+                        out.append("op=de_script n=%d hint0=%s steps=%s hintend=%s" % (n, h0, steps, he))
+        # failures in the middle
+        for _ in range(6 if tier == "quick" else 60):
+            k = rng.randint(0, n + 2)
+            steps = "".join(rng.choice("eeeeeeexn") for _ in range(k)) + rng.choice(["n", "x", ""])
+            out.append("op=de_script n=%d hint0=%s steps=%s hintend=%s" % (n, rng.choice(["none", str(n)]), steps, rng.choice(["none", "0", "1"])))
+    return out
